@@ -490,6 +490,7 @@ class SymBytes:
     def __init__(self, parts):
         self.parts = [p for p in parts if not (isinstance(p, Chunk) and p.n == 0)]
         self._n = sum(_atom_len(a) for a in self.parts)
+        self._rev_of = None      # set when this string is the full reversal of another one
 
     # -- construction
     @classmethod
@@ -561,7 +562,15 @@ class SymBytes:
         if isinstance(k, slice):
             start, stop, step = k.indices(self._n)
             if step == 1:
+                if start == 0 and stop >= self._n:
+                    return self
                 return self._slice(start, max(start, stop))
+            if step == -1 and len(range(start, stop, step)) == self._n:
+                if self._rev_of is not None:
+                    return self._rev_of
+                out = SymBytes(self.items()[::-1])
+                out._rev_of = self
+                return out
             return SymBytes(self.items()[k])
         if isinstance(k, SymInt):
             raise EngineUnsupported("symbolic index into bytes")
@@ -604,6 +613,8 @@ class SymBytes:
             return z3.BoolVal(False)
         if len(o) != self._n:
             return z3.BoolVal(False)
+        if self._rev_of is not None and o._rev_of is not None:
+            return self._rev_of.eq_term(o._rev_of)         # reversal is a bijection
         conj = []
         i = j = 0
         A, Bp = list(self.parts), list(o.parts)
